@@ -718,6 +718,10 @@ fn echo_scenario(ctx: &Ctx, idx: u64) -> Report {
     })
 }
 
+pub fn storm_scenario_pub(ctx: &Ctx, idx: u64) -> Report {
+    storm_scenario(ctx, idx)
+}
+
 pub fn check(tier: Tier) -> Check {
     Check {
         id: "C05",
